@@ -300,7 +300,9 @@ MM_CASES = [("qint8", None, "qint8", None), ("qint8", None, "qint8", 0), ("qint8
             ("qint8", 0, "qint8", -1), ("qfloat8_e4m3fn", None, "qint8", None), ("qint8", None, "qfloat8_e4m3fn", None),
             ("qint8", None, "plain", None), ("plain", None, "qint8", None), ("plain", None, "qint8", 0),
             # the second operand is the transpose of a (p, m) quantized tensor - the torch.matmul(x, w.t()) idiom
-            ("qint8", None, "qint8.t", None), ("qint8", None, "qint8.t", 0)]
+            ("qint8", None, "qint8.t", None), ("qint8", None, "qint8.t", 0),
+            # the first operand is the transpose of a quantized (m, n) tensor (a row vector obtained from a column vector when n == 1)
+            ("qint8.t", None, "qint8", None), ("qint8.t", None, "qint8.t", None)]
 
 
 _SCALE_LEMMAS = set()
@@ -472,7 +474,7 @@ def replay_mm(model, seed, inst):
             return max(1, min(64, int(str(model.get(nm, d)))))
         except Exception:
             return d
-    shapes = [(mv("n", 24), mv("m", 8), mv("p", 8)), (24, 24, 24), (24, 8, 16), (3, 5, 2), (32, 16, 8), (17, 8, 8), (24, 1, 8), (4, 1, 3)]
+    shapes = [(mv("n", 24), mv("m", 8), mv("p", 8)), (24, 24, 24), (24, 8, 16), (3, 5, 2), (32, 16, 8), (17, 8, 8), (24, 1, 8), (4, 1, 3), (1, 8, 8), (1, 5, 3), (1, 16, 24)]
     for (n, m, p) in shapes:
         lead = [] if inst["entry"] == "aten.mm" else [2]
         a = torch.randn(lead + [n, m])
